@@ -270,7 +270,12 @@ def witness(failure, ctx):
     p, err = ctx["vreplay"](["storage-batch"], stdin="\n".join(" ".join(s_) for s_ in scripts) + "\n", timeout=600)
     if p is None or p.returncode != 0:
         return {"found": False, "error": err or (p.stderr[-300:] if p else "")}
-    for ops, line in zip(scripts, p.stdout.splitlines()):
+    out_lines = p.stdout.splitlines()
+    longm = [l for l in out_lines if l.startswith("LONG MISMATCH")]
+    if longm:
+        return {"found": True, "exhaustive": False, "input": "70000 appends of distinct u32 values, then fetch_or_append(69999)", "observed": longm[:3],
+                "how": "vreplay storage-batch: long history on the real Storage<u32>"}
+    for ops, line in zip(scripts, [l for l in out_lines if not l.startswith("LONG")]):
         data, exp = [], []
         for op in ops:
             v = op[2:]
